@@ -15,11 +15,16 @@ def cases(chk, mdl):
     # the guard of normalization (uriFixAmbiguity after dot removal: a node and a one-character text): absolute, rootless, relative
     texts += ["/..//.", "s:/a/..//b", "a/..///b", "s:a/..//", "/x/../..//%41/./b"]
     texts += chk.rng.sample(uris.valid_texts(mdl, uris.small_texts(3, alphabet=uris.SEG_FULL, auths=(None, "//h"), schemes=(None, "s"))), 60 if q else 800)
+    # present-but-empty components (they are never copied: the owned object points at the library's constant), every host kind
+    # with and without port / user info, IPv6 spellings of every length
+    texts += ["//h:", "//@h", "//:", "//@:", "?", "#", "?#", "s://u@h:/?#", "//[v7.X]:8080/path", "//[v7.X]:", "s://@[v1.x]/a?q", "//u@1.2.3.4:/a", "//u:p@[::1]/a/b", "//[::1]:", "s:?", "s:#"]
+    deg = uris.valid_texts(mdl, uris.degenerate_texts() + uris.long_ip6_texts())
+    texts += chk.rng.sample(deg, 40 if q else 600)
     calls = []
     for t in texts:
         calls.append("parse %s 5" % enc_s(t))
         calls.append("makeowner %s" % P(t))
-        for mask in ((63, 8) if q else (63, 8, 4, 1, 2, 16, 32, 12)):
+        for mask in ((63, 8, 9, 64) if q else (63, 8, 4, 1, 2, 16, 32, 12, 9, 59, 64, 4294967232)):
             for ow in (0, 1): calls.append("normalize %d %d %s" % (mask, ow, P(t)))
     bases = ["s://u@h:8/a/b?q", "s:/x/y", "s:a", "s://[::1]/a", "s://1.2.3.4", "s:/"]
     refs = ["", "..", "c/d/..", "/c/../..", "//g/a/..", "?y", "s:d/e", "g:h", ".//b", "../../x/y/z/..", "/.//a", "a/b/c/d",
